@@ -268,14 +268,15 @@ EqsRef(a) == {<<1, f[1], f[2], f[3], f[1]>> : f \in {x \in Expanded(flow) : x[2]
 \* another row is a flow between the two compartments (the terms of one pair of compartments add up to its
 \* rate -- a rate that is a sum comes back part by part); remaining negative terms form the output rate,
 \* remaining positive terms the zero-order input
+RECURSIVE ToSeq(_, _)    \* an explicit tuple of the first n values of a function (TLC: each value is computed once)
+ToSeq(f, m) == IF m = 0 THEN <<>> ELSE Append(ToSeq(f, m - 1), f[m])
 FromEqs(o, E) ==
     LET rows == 1..Len(o)
-        twin(p, t) == {r \in rows : <<0 - t[1], t[2], t[3], t[4], t[5]>> \in E[r]}
-        flows == {<<o[r], o[p], t[4]>> : <<p, t, r>> \in {x \in {<<p2, t2, r2>> : p2 \in rows, t2 \in UNION {E[i] : i \in rows}, r2 \in rows} :
-                       x[2] \in E[x[1]] /\ x[2][1] = 1 /\ x[2][4] # 0 /\ x[3] \in twin(x[1], x[2])}}
-        matched(p) == {t \in E[p] : t[4] # 0 /\ twin(p, t) # {}}
-        outs == {<<o[p], 0, t[4]>> : <<p, t>> \in {x \in {<<p2, t2>> : p2 \in rows, t2 \in UNION {E[i] : i \in rows}} :
-                       x[2] \in E[x[1]] /\ x[2] \notin matched(x[1]) /\ x[2][1] = 0 - 1}}
+        twin(t) == {r \in rows : <<0 - t[1], t[2], t[3], t[4], t[5]>> \in E[r]}
+        ratet(p) == {t \in E[p] : t[4] # 0}                       \* terms rate * amount of row p
+        matched(p) == {t \in ratet(p) : twin(t) # {}}
+        flows == UNION {UNION {{<<o[r], o[p], t[4]>> : r \in twin(t)} : t \in {x \in matched(p) : x[1] = 1}} : p \in rows}
+        outs == UNION {{<<o[p], 0, t[4]>> : t \in {x \in ratet(p) \ matched(p) : x[1] = 0 - 1}} : p \in rows}
         inputs == {o[p] : p \in {p2 \in rows : \E t \in E[p2] : t \notin matched(p2) /\ t[1] = 1}}
     IN [flow |-> flows \cup outs, inputs |-> inputs]
 
@@ -295,13 +296,14 @@ MassBalance == LET M == MatrixOf(Order) IN \A c \in 1..Len(Order) :
                   IN /\ \A t \in pos : <<0 - 1, t[2], t[3], t[4]>> \in neg
                      /\ {t \in neg : <<1, t[2], t[3], t[4]>> \notin pos} = Neg(RateT(Order[c], 0))
 \* the equations determine the graph
-RoundTrip == LET r == FromEqs(Order, EqsFromMatrix(Order))
+RoundTrip == LET r == FromEqs(Order, ToSeq(EqsFromMatrix(Order), Len(Order)))
              IN r.flow = Expanded(flow) /\ r.inputs = {a \in Comps : inp[a] # 0}
 \* the order depends on the node order only through the choice of the central compartment
 OrderDependsOnCentralOnly == \A q \in Perms(Comps) : CentralOf(q) = CentralOf(ins) => OrderOf(q) = Order
-\* ... and not at all when at most one (non-special) compartment has an output flow
+\* ... and not at all when at most one compartment has an output flow: then every node order has the same central
+\* compartment (together with OrderDependsOnCentralOnly: OrderOf(q) = Order for every node order q)
 NOut == Cardinality({a \in Comps : Rate(a, 0) # 0})
-OrderInsertionInvariant == NOut <= 1 => \A q \in Perms(Comps) : OrderOf(q) = Order
+OrderInsertionInvariant == NOut <= 1 => \A q \in Perms(Comps) : CentralOf(q) = CentralOf(ins)
 \* dosing compartments: exactly the dosed compartments, the central one last
 DosingOk == LET ds == DosingOf(ins) IN ds # <<>> =>
                /\ SeqSet(ds) = {a \in Comps : doses[a] # <<>>} /\ Len(ds) = Cardinality(SeqSet(ds))
